@@ -38,8 +38,9 @@ def tstr(t):
 class Reconstructor:
     """Turns explorer values into Simplicity terms, inlining the local builder helpers."""
 
-    def __init__(self, facts, hole_of=None, max_depth=12):
+    def __init__(self, facts, hole_of=None, max_depth=12, extra=None):
         self.fx = facts
+        self.extra = extra or {}
         self.hole_of = hole_of or (lambda v: None)
         self.max_depth = max_depth
         self.inlined = set()
@@ -102,6 +103,8 @@ class Reconstructor:
     def call(self, v, depth):
         c, a = v[1], v[2]
         last = c.split('::')[-1]
+        if c in self.extra:
+            return self.extra[c](self, v, depth)
         # primitive combinators of simplicity-lang
         if 'CoreConstructible' in c or 'JetConstructible' in c or 'WitnessConstructible' in c:
             if last in ('iden', 'unit'):
